@@ -187,7 +187,7 @@ def e6_pub_fields(src, report):
 
 
 import os
-E13_ENABLED = os.environ.get("VERIF_E13", "0") != "0"
+E13_ENABLED = os.environ.get("VERIF_E13", "1") != "0"
 
 
 class _NoE13(Exception):
